@@ -313,6 +313,29 @@ fn explore(ctx: &mut Ctx) {
             }
         }
     }
+    // Lengths at the documented maximum: usize::MAX, MAX-1, MAX-2, ... with k tiny runs first (1, 8, 9, 10+
+    // blocks) and either a final run or trailing zeros reaching the end.
+    for &k in &[0usize, 1, 200, 256, 257, 288, 320, 600] {
+        for &slack in &[0u64, 1, 2, 3, 40] {
+            for &ends_with_run in &[true, false] {
+                let used = 2 * k as u64;
+                let mut pairs: Vec<(u64, u64)> = std::iter::repeat((1u64, 1u64)).take(k).collect();
+                let tail = if ends_with_run {
+                    let gap = 1u64 << 62;
+                    pairs.push((gap, u64::MAX - slack - used - gap));
+                    slack
+                } else {
+                    u64::MAX - slack - used
+                };
+                let c = Case::Runs { pairs, tail };
+                if ctx.mine(&c) {
+                    ctx.count("length_at_the_maximum_cases", 1);
+                    check_case(ctx, &c);
+                }
+            }
+        }
+    }
+
     // First block without unset bits: the run at position 0 fills the first block alone (the next
     // pair does not fit), followed by k tiny runs (32 per block), i.e. 2, 9, 10, ... blocks in total.
     for &first_len in &[(1u64 << 63) + 1, 1u64 << 63, (1u64 << 63) + 12345] {
